@@ -71,6 +71,14 @@ def run(ctx):
             if i % 3 == 2:
                 cfg['detect_min_iri'] = True
             graphs.append((g, cfg))
+        # one more graph: disjunctions enabled on a graph that really produces them (several values per instance, typed and untyped), and
+        # a class and a property whose IRIs are not ASCII (file and string channels must agree byte for byte)
+        from props import c13 as _c13
+        g_or = [tuple(('I', t[1].replace(EX + 'Dog', EX + 'Perr\u00f3')) if isinstance(t, tuple) and t[0] == 'I' else t for t in tr) for tr in _c13.mixed_values_graph(rng)]
+        g_or = [(s_, p_.replace(EX + 'name', EX + 'a\u00f1o'), o_) for s_, p_, o_ in g_or]
+        cfg_or = gen.default_cfg()
+        cfg_or.update(report='mixed', disable_comments=False, disable_or=False, allow_redundant_or=True, inverse=rng.random() < 0.5, th=(0, 1))
+        graphs.append((g_or, cfg_or))
         seqs = [s for n in (1, 2) for s in itertools.product(OPS, repeat=n)]
         all3 = list(itertools.product(OPS, repeat=3))
         seqs += all3 if ctx.tier == "thorough" else rng.sample(all3, 250)
